@@ -22,8 +22,6 @@ import (
 	"verifharness/internal/h"
 )
 
-const sigMinBits = "C15.min-key-bits-rounded-up"
-
 func short(uri string) string { return uri[strings.LastIndex(uri, "#")+1:] }
 
 // specBits is the Part 7 table (MinAsymmetricKeyLength, MaxAsymmetricKeyLength)
@@ -85,27 +83,12 @@ func (e *env) accept(uri string, lbits, rbits int) {
 	// ---- oracle on the implementation: exactly the Part 7 range
 	sp, limited := specBits[pol]
 	want := "ok"
-	below := false
 	for _, b := range []int{lbits, rbits} {
 		if b >= 0 && limited && (b < sp[0] || b > sp[1]) {
 			want = "err"
-			if b < sp[0] && b > sp[0]-8 {
-				below = true
-			}
 		}
 	}
 	if res != want {
-		inRange := func(b int) bool { return b < 0 || !limited || (b > sp[0]-8 && b <= sp[1]) }
-		if res == "ok" && below && inRange(lbits) && inRange(rbits) {
-			// known finding: size compared in whole bytes, lower limit rounded
-			e.r.Confirm(sigMinBits, fmt.Sprintf("%s: uapolicy.Asymmetric accepted a key pair (local %s, remote %s bits) below MinAsymmetricKeyLength %d", pol, bitsArg(lbits), bitsArg(rbits), sp[0]))
-			if !e.sigs[pol] {
-				e.sigs[pol] = true
-				e.r.Fail(c, sigMinBits, fmt.Sprintf("accepted although below the minimum of %d bits", sp[0]))
-			}
-			e.r.Hit("accept:below-min-accepted")
-			return
-		}
 		e.r.Fail(c, "", fmt.Sprintf("constructor says %s, Part 7 range %d..%d says %s", res, sp[0], sp[1], want))
 	}
 }
